@@ -18,6 +18,7 @@ package frontend
 //@   pure
 //@   ensures stable(result)
 //@   ensures len(in) == 0 ==> den(result) == fsub(den(i1), den(i2))
+//@   ensures len(in) == 1 ==> den(result) == fsub(fsub(den(i1), den(i2)), den(in[0]))
 //@ contract iface API.Neg
 //@   pure
 //@   ensures stable(result)
